@@ -179,10 +179,15 @@ def _fix_atomic_specifiers_once(
         new_type.coord = parent.coord
     # Qualifiers written next to the specifier ('const _Atomic(int) x;')
     # qualify the same (atomic) type.
-    new_type.quals = [
-        q for q in (parent.quals or []) if q not in new_type.quals
-    ] + new_type.quals
-    if "_Atomic" not in new_type.quals:
-        new_type.quals.append("_Atomic")
+    # Array and function declarators carry no qualifiers of their own
+    # ('_Atomic(int [3])'): qualify the nearest level that can.
+    qualified = new_type
+    while not hasattr(qualified, "quals"):
+        qualified = qualified.type
+    qualified.quals = [
+        q for q in (parent.quals or []) if q not in qualified.quals
+    ] + qualified.quals
+    if "_Atomic" not in qualified.quals:
+        qualified.quals.append("_Atomic")
     cast(Any, grandparent).type = new_type
     return decl, True
